@@ -15,9 +15,10 @@ def R(cfg, lens, n, v, depth=0, **kw):
 FIN_RESURRECT = "0,1,2,3"          # Nop, CloneCell0ToG, CloneCell1ToG, MoveCell0ToG
 FIN_RELEASE = "0,4,5,12"           # Nop, TakeCell0, TakeCell1, DropG
 FIN_ALLOC = "0,7,8"                # Nop, AllocIntoCell1, AllocCycleAndDrop
-FIN_PHASE = "0,9,10,11"            # Nop, Collect, TryUnwrapG, FinalizeAgainG
+FIN_PHASE = "0,9,10,11,14,15"      # Nop, Collect, TryUnwrapG, FinalizeAgainG, CollectThenTryUnwrapG, CollectThenFinalizeAgainG
 FIN_MIX = "0,1,4,9"                # Nop, CloneCell0ToG, TakeCell0, Collect
-FIN_ALL = "0,1,2,3,4,5,7,8,9,10,11,12"
+FIN_ALL = "0,1,2,3,4,5,7,8,9,10,11,12,14,15"
+DROP_PHASE = "0,2,3,4,5,6"         # Nop, Collect, TryUnwrapG, FinalizeAgainG, CollectThenTryUnwrapG, CollectThenFinalizeAgainG
 ACT_ALL = "0,1,2,3,4,5,6"
 ACT_WEAK = "0,3,4"                 # Nop, UpgradeOwnerWeak, UpgradeNeighbourWeak
 ACT_REENTRANT = "0,1,5"            # Nop, DropCapturedCc, CleanOther
@@ -99,8 +100,8 @@ plan("C02", Q, core_q + seed_q + [fin_q(FIN_RELEASE), R("nofin-rel", "dtor", 2, 
 plan("C02", T, core_t + seed_t + [fin_t(FIN_RELEASE), fin_t(FIN_ALL, depth=11), R("nofin-rel", "dtor", 2, 3, depth=18, max_seconds=MID)] + weak_t[1:5] + cleaner_t)
 
 # ---- C03 drop once / free once / right layout (+ layout grid engine) ---------------------------------------------
-plan("C03", Q, [R("full-dbg", "core", 2, 3), R("min-dbg", "core", 2, 3), fin_q(FIN_RELEASE, depth=12)] + seed_q[:1] + weak_q + cyclic_q)
-plan("C03", T, [R(c, "core", 2, 3) for c in ["full-dbg", "full-rel", "nofin-rel", "min-dbg", "min-rel", "pedantic-dbg"]] + [R("full-rel", "core", 3, 3, depth=14, max_seconds=MID), fin_t(FIN_RELEASE)] + weak_t + cyclic_t + cleaner_t)
+plan("C03", Q, [R("full-dbg", "core", 2, 3), R("min-dbg", "core", 2, 3), fin_q(FIN_RELEASE, depth=11), fin_q(FIN_PHASE, depth=9), R("full-dbg", "dtor", 2, 3, depth=9, drop_menu=DROP_PHASE)] + seed_q[:1] + [R("full-dbg", "weak", 2, 3, depth=12), R("full-dbg", "weakfin", 2, 3, depth=9)] + cyclic_q)
+plan("C03", T, [R(c, "core", 2, 3) for c in ["full-dbg", "full-rel", "nofin-rel", "min-dbg", "min-rel", "pedantic-dbg"]] + [R("full-rel", "core", 3, 3, depth=14, max_seconds=MID), fin_t(FIN_RELEASE), fin_t(FIN_PHASE, depth=14), R("full-rel", "dtor", 2, 3, depth=14, drop_menu=DROP_PHASE, max_seconds=MID)] + weak_t + cyclic_t + cleaner_t)
 
 # ---- C04 Rc equivalence ---------------------------------------------------------------------------------------
 plan("C04", Q, core_q + seed_q[:1] + [fin_q(FIN_RELEASE), R("full-dbg", "weak", 2, 3, depth=12), R("full-dbg", "sat", 1, 2, depth=5, sat_k=1)])
@@ -178,8 +179,11 @@ plan("C10", Q, [
     R("full-dbg", "cleaner", 2, 3, depth=8, action_menu=ACT_REENTRANT),
     R("full-dbg", "cleaner", 2, 3, depth=7, action_menu=ACT_ALL, c=3, max_actions=3),
     R("nofin-rel", "cleaner", 2, 3, depth=8),
+    R("full-dbg", "cleanermany", 1, 1, c=5, max_actions=6),
 ])
 plan("C10", T, [
+    R("full-dbg", "cleanermany", 1, 1, c=6, max_actions=7, max_seconds=MID),
+    R("full-rel", "cleanermany", 2, 2, c=5, max_actions=6, depth=14, action_menu="0,5", max_seconds=MID),
     R("full-rel", "cleaner", 2, 3, depth=11, action_menu=ACT_REENTRANT, max_seconds=MID),
     R("full-rel", "cleaner", 2, 3, depth=10, action_menu=ACT_ALL, c=3, max_actions=3, max_seconds=MID),
     R("full-dbg", "cleaner", 2, 3, depth=9, action_menu=ACT_ALL),
@@ -193,15 +197,15 @@ plan("C11", T, core_t + auto_t + cyclic_t + seed_t[:2] + [fin_t(FIN_RELEASE)] + 
 
 # ---- C12 phases, no nesting ----------------------------------------------------------------------------------------------
 plan("C12", Q, [
-    fin_q(FIN_PHASE), R("full-dbg", "dtor", 2, 3, depth=13),
+    fin_q(FIN_PHASE, depth=12), R("full-dbg", "dtor", 2, 3, depth=12, drop_menu=DROP_PHASE),
     R("full-dbg", "cleaner", 2, 3, depth=8, action_menu=ACT_PHASE),
     R("full-dbg", "autofin", 3, 3, depth=8), R("full-dbg", "core", 2, 3),
 ])
 plan("C12", T, [
-    fin_t(FIN_PHASE), R("full-rel", "dtor", 2, 3, depth=18, max_seconds=MID), fin_t(FIN_ALL, depth=11),
+    fin_t(FIN_PHASE, depth=16), R("full-rel", "dtor", 2, 3, depth=16, drop_menu=DROP_PHASE, max_seconds=MID), fin_t(FIN_ALL, depth=11),
     R("full-rel", "cleaner", 2, 3, depth=11, action_menu=ACT_PHASE, max_seconds=MID),
     R("full-rel", "autofin", 3, 3, depth=11, max_seconds=MID), R("nofin-rel", "dtor", 2, 3, depth=16, max_seconds=MID),
-    R("full-dbg", "fin", 2, 2, fin_menu=FIN_PHASE), R("full-dbg", "dtor", 2, 2),
+    R("full-dbg", "fin", 2, 2, fin_menu=FIN_PHASE, max_seconds=MID), R("full-dbg", "dtor", 2, 2, drop_menu=DROP_PHASE, max_seconds=MID),
 ])
 
 # ---- C13 try_unwrap (+ layout grid engine) ---------------------------------------------------------------------------------
